@@ -1408,6 +1408,38 @@ def _c32(ctx, n, MAXL):
     guarded(ctx, "c32_rune_max_roundtrip", "Rune(u128::MAX) prints as a 28-letter name that parses back to u128::MAX", "the single value u128::MAX (concrete execution of the MIR)",
             "dev", ob_print_max, lambda v: _rep_rune_roundtrip(ctx, v))
 
+    def boundary_values():
+        vals = set()
+        for k in (8, 16, 32, 64, 96, 127):                    # machine-width boundaries (fast paths live there)
+            vals |= {2 ** k - 2, 2 ** k - 1, 2 ** k, 2 ** k + 1}
+        first = 0
+        for L in range(1, 29):                                 # first and last name of every length
+            last = first + 26 ** L - 1
+            vals |= {first, min(last, U128)}
+            first = last + 1
+        return sorted(v for v in vals if 0 <= v <= U128)
+
+    def ob_print_boundaries(ob):
+        ob.vars = {"n": n}
+        exq = ob.ex()
+        f = exq.find_impl_fn("rune", "from_str", r"^impl FromStr for Rune")
+        for val in boundary_values():
+            for r, chars in run_display(ob, exq, r"^impl Display for Rune", "rune", Struct([val]), []):
+                if r.kind != "return" or chars is None:
+                    ob.cex.append(("Display fails at a boundary value", {"n": val}))
+                    continue
+                st = X.State(); st.pc = list(r.pc)
+                for r2 in exq.run(f, [X.SymStr("printed", chars=chars)], st):
+                    ob.paths += 1
+                    ok_ = r2.kind == "return" and r2.value.variant == 0 and X.is_conc(r2.value.fields[0][0]) and r2.value.fields[0][0] == val
+                    ob.witness = True
+                    ob.queries += 1
+                    if not ok_:
+                        ob.cex.append(("a boundary value does not round-trip through Display and FromStr", {"n": val}))
+    guarded(ctx, "c32_rune_boundary_roundtrip", "Rune(n) prints as a name that parses back to n at the values where a width-specific fast path or a name-length change could sit",
+            "concrete execution of the MIR (no solver range here: the symbolic print->parse claim stops at 5 letters) at 2^k-2..2^k+1 for k in 8,16,32,64,96,127 and at the first and last name of every length 1..28 (about 80 values)",
+            "dev", ob_print_boundaries, lambda v: _rep_rune_roundtrip(ctx, v))
+
     def ob_parse_print(ob):
         exq = ob.ex()
         f = exq.find_impl_fn("rune", "from_str", r"^impl FromStr for Rune")
@@ -1839,16 +1871,24 @@ def c25(ctx):
                     ge = list(got[0])
                     if len(ge) != ne:
                         conds.append(None)
-                    elif ne == 1:
-                        conds.append(same_value(ge[0], edicts[0]))
-                    elif ne == 2:
-                        a_, b_ = edicts
-                        le = z3.Or(a_[0][0] < b_[0][0], z3.And(a_[0][0] == b_[0][0], a_[0][1] <= b_[0][1]))   # stable: ties keep their order
-                        keep = z3.And(same_value(ge[0], a_), same_value(ge[1], b_))
-                        swap = z3.And(same_value(ge[0], b_), same_value(ge[1], a_))
-                        conds.append(z3.Or(z3.And(le, keep), z3.And(z3.Not(le), swap)))
-                    elif ne > 2:
-                        raise Unsupported("round trip with more than 2 edicts")
+                    elif ne >= 1:
+                        if ne > 3:
+                            raise Unsupported("round trip with more than 3 edicts")
+                        # the result is the stable sort of the original by id: some permutation p with
+                        # key(p_i) < key(p_i+1), or equal keys and p_i < p_i+1, and result[i] == original[p_i]
+                        import itertools as _it2
+                        def key_lt(a_, b_):
+                            return z3.Or(a_[0][0] < b_[0][0], z3.And(a_[0][0] == b_[0][0], a_[0][1] < b_[0][1]))
+                        def key_eq(a_, b_):
+                            return z3.And(a_[0][0] == b_[0][0], a_[0][1] == b_[0][1])
+                        alts = []
+                        for perm in _it2.permutations(range(ne)):
+                            cs = [same_value(ge[i], edicts[perm[i]]) for i in range(ne)]
+                            for i in range(ne - 1):
+                                a_, b_ = edicts[perm[i]], edicts[perm[i + 1]]
+                                cs.append(z3.Or(key_lt(a_, b_), z3.And(key_eq(a_, b_), z3.BoolVal(perm[i] < perm[i + 1]))))
+                            alts.append(z3.And(*cs))
+                        conds.append(z3.Or(*alts))
                     ok = all(c is not None for c in conds)
                     ob.query(r2.pc, z3.And(*conds) if ok else False, ob.vars, "decipher(encipher(r)) differs from r (edicts sorted by id, ties in order)")
         return body
@@ -1857,13 +1897,13 @@ def c25(ctx):
     ALL5, ALL6 = (1, 1, 1, 1, 1), (1, 1, 1, 1, 1, 1)
     shapes = [("plain_mint_ptr_e2", None, None, True, True, 2), ("etch_full_terms_full_mint_ptr_e1", ALL5, ALL6, True, True, 1),
               ("etch_empty", (0, 0, 0, 0, 0), None, False, False, 0), ("etch_alt_terms_alt", (1, 0, 1, 0, 1), (0, 1, 0, 1, 0, 1), False, True, 0),
-              ("etch_alt2_terms_alt2_e1", (0, 1, 0, 1, 0), (1, 0, 1, 0, 1, 0), True, False, 1), ("nothing", None, None, False, False, 0)]
+              ("etch_alt2_terms_alt2_e1", (0, 1, 0, 1, 0), (1, 0, 1, 0, 1, 0), True, False, 1), ("nothing", None, None, False, False, 0), ("plain_e3", None, None, False, False, 3)]
     if ctx.tier == "thorough":
         rnd = random.Random(C.seed() + 25)
         for k in range(16):
             em = tuple(rnd.randrange(2) for _ in range(5)) if rnd.random() < 0.8 else None
             tm = tuple(rnd.randrange(2) for _ in range(6)) if em is not None and rnd.random() < 0.7 else None
-            shapes.append(("r%d" % k, em, tm, rnd.random() < 0.5, rnd.random() < 0.5, rnd.randrange(3)))
+            shapes.append(("r%d" % k, em, tm, rnd.random() < 0.5, rnd.random() < 0.5, rnd.randrange(4)))
     for nm, em, tm, hm, hp, ne in shapes:
         guarded(ctx, "c25_roundtrip_%s" % nm,
                 "a well-formed runestone enciphered by Runestone::encipher deciphers back to the same runestone, with its edicts ordered by rune id (ties keep their order)",
